@@ -73,3 +73,43 @@ def readCtl (ext : Nat → Bytes → Bool) (n : Node) : Option CView :=
     else some (.generic r.oid r.crit (r.value.getD []))
 
 end Spec
+
+namespace Spec
+open Ber Gldap
+
+/-- what a client learns from one response message -/
+inductive RView where
+  | result (id : Int) (appTag : Nat) (code : Int) (matched diag : Bytes) (controls : List CView)
+  | entry (id : Int) (dn : Bytes) (attrs : List (Bytes × List Bytes))
+  deriving Repr, DecidableEq
+
+def octetContent : Node → Option Bytes
+  | .prim 0 4 s => some s
+  | _ => none
+
+/-- PartialAttribute ::= SEQUENCE { type AttributeDescription, vals SET OF AttributeValue } -/
+def readAttr : Node → Option (Bytes × List Bytes)
+  | .cons 0 16 [.prim 0 4 name, .cons 0 17 vals] => (vals.mapM octetContent).map fun vs => (name, vs)
+  | _ => none
+
+/-- Controls ::= SEQUENCE OF control, tagged [0] -/
+def readControls (ext : Nat → Bytes → Bool) : List Node → Option (List CView)
+  | [] => some []
+  | [.cons 2 0 cs] => cs.mapM (readCtl ext)
+  | _ => none
+
+/-- LDAPMessage ::= SEQUENCE { messageID, protocolOp, controls [0] OPTIONAL } where protocolOp is
+    a SearchResultEntry or any response carrying the COMPONENTS OF LDAPResult (RFC 4511 4.1.9,
+    4.5.2); strict: exactly these shapes, universal INTEGER / ENUMERATED / OCTET STRING -/
+def readResponse (ext : Nat → Bytes → Bool) : Node → Option RView
+  | .cons 0 16 [.prim 0 2 idb, .cons 1 4 [.prim 0 4 dn, .cons 0 16 attrs]] =>
+      match parseInt64 idb, attrs.mapM readAttr with
+      | some id, some as => some (.entry id dn as)
+      | _, _ => none
+  | .cons 0 16 (.prim 0 2 idb :: .cons 1 tag [.prim 0 10 cb, .prim 0 4 m, .prim 0 4 d] :: rest) =>
+      match parseInt64 idb, parseInt64 cb, readControls ext rest with
+      | some id, some code, some cs => some (.result id tag code m d cs)
+      | _, _, _ => none
+  | _ => none
+
+end Spec
